@@ -97,6 +97,7 @@ type siteRig struct {
 	hasLog      bool
 	logExcept   string
 	archive     bool // C12: browse /pub with servearchive; the directory holds a symbolic link
+	log3        bool // C20: a third log directive (scope /static, own file)
 	log2        bool // C20: a second log directive (scope /p, own file, no except)
 	hasGzip     bool
 	gzLevel     int
@@ -559,6 +560,7 @@ func runSite(mode string) sim.RigFunc {
 			r.logExcept = "/p/quiet"
 		}
 		r.log2 = mode == "C20" && pick(50)
+		r.log3 = r.log2 && pick(60)
 		siteIPMask = mode == "C20" && pick(30)
 		r.archive = mode == "C12" && pick(30)
 		// the log format of this run: the request id first, then a random arrangement of fragments
@@ -611,6 +613,10 @@ func runSite(mode string) sim.RigFunc {
 				if r.log2 {
 					// a second log with a narrower scope and no exceptions of its own
 					fmt.Fprintf(&b, "\tlog /p %s \"R={>X-Req} {status} {size}\" {\n\t\trotate_disable\n\t}\n", r.logFile+"2")
+					if r.log3 {
+						// a third one whose scope has nothing in common with the second's
+						fmt.Fprintf(&b, "\tlog /static %s \"R={>X-Req} {status} {size}\" {\n\t\trotate_disable\n\t}\n", r.logFile+"3")
+					}
 				}
 			}
 			if r.hasGzip && !twin {
@@ -1300,6 +1306,10 @@ func (r *siteRig) judge() {
 		b2, _ := os.ReadFile(r.logFile + "2")
 		r.judgeLog2(strings.Split(strings.TrimRight(string(b2), "\n"), "\n"))
 	}
+	if mode == "C20" && r.log3 {
+		b3, _ := os.ReadFile(r.logFile + "3")
+		r.judgeLogN(strings.Split(strings.TrimRight(string(b3), "\n"), "\n"), "/static", "third")
+	}
 	if mode == "C20" {
 		r.judgeLog(lines)
 	}
@@ -1666,7 +1676,11 @@ func (r *siteRig) judgeCompression(q *sreq, resp *sim.Resp, dec []byte, derr err
 
 // judgeLog2: the second log directive (scope /p, no exceptions): one line for
 // every completed request under /p, whatever the first log directive excepts.
-func (r *siteRig) judgeLog2(lines []string) {
+func (r *siteRig) judgeLog2(lines []string) { r.judgeLogN(lines, "/p", "second") }
+
+// judgeLogN: a further log directive (own scope, own file, no exceptions): one line for every
+// completed request inside its scope, none for any other.
+func (r *siteRig) judgeLogN(lines []string, scope, which string) {
 	c := r.c
 	byReq := map[string][]string{}
 	for _, l := range lines {
@@ -1674,7 +1688,7 @@ func (r *siteRig) judgeLog2(lines []string) {
 			continue
 		}
 		if !strings.HasPrefix(l, "R=") {
-			c.Violate("C20/torn-line", "second-log", "line of the second access log does not start with the format's first field: %q", trunc([]byte(l), 200))
+			c.Violate("C20/torn-line", which+"-log", "line of the "+which+" access log does not start with the format's first field: %q", trunc([]byte(l), 200))
 			continue
 		}
 		id := strings.SplitN(l[2:], " ", 2)[0]
@@ -1688,23 +1702,23 @@ func (r *siteRig) judgeLog2(lines []string) {
 		if u, err := url.PathUnescape(p); err == nil {
 			p = u
 		}
-		inScope := strings.HasPrefix(strings.ToLower(path.Clean(p)), "/p")
+		inScope := strings.HasPrefix(strings.ToLower(path.Clean(p)), scope)
 		got := byReq[q.id]
 		if !inScope {
 			if len(got) > 0 {
-				c.Violate("C20/out-of-scope-request-logged", "second-log", "request %s to %s is outside the second log's scope /p but produced %d lines there", q.id, q.path, len(got))
+				c.Violate("C20/out-of-scope-request-logged", which+"-log", "request %s to %s is outside the %s log's scope %s but produced %d lines there", q.id, q.path, which, scope, len(got))
 			}
 			continue
 		}
 		panicked := q.script.panicAt >= 0
 		if len(got) != 1 {
-			sig := "second-log"
+			sig := which + "-log"
 			if panicked {
 				sig = fmt.Sprintf("handler-panicked/errors=%v", r.hasErrors)
 			} else if q.noLog {
-				sig = "second-log/excepted-by-the-first-log-only"
+				sig = which + "-log/excepted-by-the-first-log-only"
 			}
-			c.Violate("C20/line-count", sig, "request %s (%s %s, status on the wire %d) produced %d lines in the second access log (scope /p, no exceptions), want exactly 1 (%s)", q.id, q.method, q.path, q.resp.Status, len(got), r.dirSig())
+			c.Violate("C20/line-count", sig, "request %s (%s %s, status on the wire %d) produced %d lines in the %s access log (scope %s, no exceptions), want exactly 1 (%s)", q.id, q.method, q.path, q.resp.Status, len(got), which, scope, r.dirSig())
 			continue
 		}
 		if panicked {
@@ -1712,7 +1726,7 @@ func (r *siteRig) judgeLog2(lines []string) {
 		}
 		size := len(q.resp.Body)
 		if want := fmt.Sprintf("R=%s %d %d", q.id, q.resp.Status, size); got[0] != want {
-			c.Violate("C20/line-differs", "second-log", "request %s: line of the second access log\n   got  %q\n   want %q", q.id, got[0], want)
+			c.Violate("C20/line-differs", which+"-log", "request %s: line of the %s access log\n   got  %q\n   want %q", q.id, which, got[0], want)
 		}
 		c.Probe("second-log-line-checked")
 	}
